@@ -69,6 +69,74 @@ def _lemmas(ctx):
 
 LEMMAS = [_lemmas]
 
+# ---------------------------------------------------------------------------------------------- node counts of the sampling grids
+def _count_term(e, env):
+    """z3 term of a node-count expression over the constructor's locals: + - * /, int() (truncation of a NON-NEGATIVE real = floor), max, min."""
+    import ast
+    if isinstance(e, ast.Constant) and isinstance(e.value, (int, float)):
+        return z3.RealVal(e.value) if isinstance(e.value, float) else z3.IntVal(e.value)
+    if isinstance(e, ast.Name):
+        return env.setdefault(e.id, z3.Real(e.id))
+    if isinstance(e, ast.BinOp) and isinstance(e.op, (ast.Add, ast.Sub, ast.Mult, ast.Div)):
+        a, b = _count_term(e.left, env), _count_term(e.right, env)
+        if isinstance(e.op, ast.Div):
+            a = z3.ToReal(a) if a.sort().kind() == z3.Z3_INT_SORT else a
+            b = z3.ToReal(b) if b.sort().kind() == z3.Z3_INT_SORT else b
+            env.setdefault('#nonzero', []).append(b)
+            return a / b
+        if a.sort() != b.sort():
+            a = z3.ToReal(a) if a.sort().kind() == z3.Z3_INT_SORT else a
+            b = z3.ToReal(b) if b.sort().kind() == z3.Z3_INT_SORT else b
+        return {ast.Add: a + b, ast.Sub: a - b, ast.Mult: a * b}[type(e.op)]
+    if isinstance(e, ast.Call) and isinstance(e.func, ast.Name) and e.func.id == 'int' and len(e.args) == 1:
+        a = _count_term(e.args[0], env)
+        env.setdefault('#nonneg', []).append(a)      # int() truncates towards zero: equal to floor only for non-negative arguments
+        return z3.ToInt(a) if a.sort().kind() == z3.Z3_REAL_SORT else a
+    if isinstance(e, ast.Call) and isinstance(e.func, ast.Name) and e.func.id in ('max', 'min') and len(e.args) == 2:
+        a, b = _count_term(e.args[0], env), _count_term(e.args[1], env)
+        if a.sort() != b.sort():
+            a = z3.ToReal(a) if a.sort().kind() == z3.Z3_INT_SORT else a
+            b = z3.ToReal(b) if b.sort().kind() == z3.Z3_INT_SORT else b
+        return z3.If(a >= b, a, b) if e.func.id == 'max' else z3.If(a <= b, a, b)
+    from pyvc.values import Unsupported
+    u = Unsupported('node-count expression outside subset: %s' % ast.unparse(e))
+    u.label = 'node-count'
+    raise u
+
+
+def _node_counts(ctx):
+    """Every sampling axis of Caching1D/2D/3D gets AT LEAST TWO nodes (one interpolation cell) whatever the area and the resolution - also
+    when the area is thinner than the resolution: the third argument of each linspace() call of the constructors, read from the parse tree, is
+    >= 2 for all min < max and resolution > EPSILON (the two ValueError guards in front of it)."""
+    import ast
+    tree = ctx['tree']
+    out = []
+    for file, cls, axes in ((C1, 'Caching1D', 'x'), (C1.replace('1d', '2d'), 'Caching2D', 'xy'), (C1.replace('1d', '3d'), 'Caching3D', 'xyz')):
+        fn = tree.find_func(file, cls + '.__init__')
+        calls = {}
+        for n in ast.walk(fn):
+            if isinstance(n, ast.Assign) and isinstance(n.targets[0], ast.Attribute) and n.targets[0].attr.endswith('_np'):
+                for c in ast.walk(n.value):
+                    if isinstance(c, ast.Call) and isinstance(c.func, ast.Name) and c.func.id == 'linspace' and len(c.args) >= 3:
+                        calls.setdefault(n.targets[0].attr[0], c.args[2])
+        for ax in axes:
+            name = 'construction.%s.%s.at-least-two-nodes' % (cls, ax)
+            if ax not in calls:
+                out.append(lemma(name, PROP, [], z3.BoolVal(False), 'no linspace(..., n) found for axis %s' % ax))
+                continue
+            env = {}
+            n_ = _count_term(calls[ax], env)
+            lo, hi, d = env.get('min' + ax, z3.Real('min' + ax)), env.get('max' + ax, z3.Real('max' + ax)), env.get('delta' + ax, z3.Real('delta' + ax))
+            eps = env.setdefault('EPSILON', z3.Real('EPSILON'))
+            hyps = [lo < hi, d > eps, eps > 0]
+            goal = z3.And(n_ >= 2, *([x != 0 for x in env.get('#nonzero', [])] + [x >= 0 for x in env.get('#nonneg', [])]))
+            out.append(lemma(name, PROP, hyps, goal, 'n = %s >= 2 (and int() applied to a non-negative quotient)' % ast.unparse(calls[ax])))
+    return out
+
+
+LEMMAS = LEMMAS + [_node_counts]
+
+
 
 def bounded_history(ctx):
     """Bounded stand-in (NOT a proof): random cubic functions and random access orders on the real Caching1D/2D/3D; the value at a
@@ -142,6 +210,23 @@ for trial in range(%d):
                 w = Caching3D(g3, (lo, hi, lo, hi, lo, hi), (0.4, 0.4, 0.4), function_boundaries=fb)(*p)
                 if abs(w - v) > 1e-7 * (1 + abs(v)): bad.append(("3d-history-function_boundaries", trial, fb))
                 if abs(v - g3(*p)) > 1e-6 * (1 + abs(v)): bad.append(("3d-linear-function_boundaries", trial, fb))
+# areas THINNER than the resolution on some axis (still one interpolation cell per axis): points of the area never raise and functions linear
+# in each coordinate are reproduced
+def _thin(make, f, pts, tag):
+    global n
+    for p in pts:
+        n += 1
+        try:
+            v = make()(*p)
+        except Exception as e:
+            bad.append((tag, list(p), "raised " + type(e).__name__ + ": " + str(e)[:80])); return
+        if abs(v - f(*p)) > 1e-6 * (1 + abs(f(*p))): bad.append((tag, list(p), v, f(*p))); return
+_l1 = lambda x: 3.0 * x + 5.0; _l2 = lambda x, y: 3.0 * x - 2.0 * y + 0.5 * x * y; _l3 = lambda x, y, z: 1.0 + x - 2.0 * y + 3.0 * z + x * y * z
+_thin(lambda: Caching1D(_l1, (0.0, 0.5), 1.0), _l1, [(0.0,), (0.25,), (0.5,)], "1d-area-thinner-than-resolution")
+_thin(lambda: Caching2D(_l2, (0.0, 10.0, 0.0, 0.5), (1.0, 1.0)), _l2, [(0.3, 0.1), (5.5, 0.25), (9.9, 0.5)], "2d-area-thinner-than-resolution")
+_thin(lambda: Caching2D(_l2, (0.0, 0.3, -1.0, 4.0), (0.5, 0.5)), _l2, [(0.1, 0.1), (0.3, 3.9)], "2d-area-thinner-than-resolution")
+_thin(lambda: Caching3D(_l3, (0.0, 2.0, 0.0, 2.0, 0.0, 0.2), (0.5, 0.5, 0.5)), _l3, [(0.3, 0.1, 0.1), (1.5, 1.25, 0.2)], "3d-area-thinner-than-resolution")
+_thin(lambda: Caching3D(_l3, (0.0, 0.2, 0.0, 0.3, 0.0, 0.1), (0.5, 0.5, 0.5)), _l3, [(0.1, 0.1, 0.05)], "3d-area-thinner-than-resolution")
 # exactly AT the sampling nodes (documented layout: linspace(min - 1e-7, max + 1e-7, max(int((max - min) / resolution) + 1, 2))), evaluated twice,
 # with and without function_boundaries: both evaluations equal the wrapped (linear) function and a fresh object
 for fb in (None, (4.0, 12.0), (-1.0, 1.0)):
